@@ -135,6 +135,10 @@ def run_rows(pid, spec, prefixes, ctxs=CTXS_DEFAULT, regs_fn=None, prep_kw=None,
             ctx.cpu.registers.scr.ns = 1      # Monitor mode with SCR.NS = 1 (as set before a return to Non-secure state)
             desc['ns'] = 1
             desc['mon_ns1'] = True
+            if rng.random() < 0.7:
+                # ... and the SPSR may then name any mode that is legal in Non-secure state, Hyp included
+                r_ = ctx.cpu.registers
+                r_.spsr_mon = (r_.spsr_mon & ~0x1F) | scen.mode_word(rng.choice(ctx.legal_modes(1)))
         if after:
             after(ctx, rng, desc)
         ls.res['sets']['contexts'].add('%s/%s/%s' % (ctxkey[0], mode, kind))
@@ -151,6 +155,11 @@ def control_noise(ctx, rng, desc):
     r.sctlr.v = rng.randrange(2)
     r.sctlr.te = rng.randrange(2) if cfg['arch_version'] >= 6 else 0
     r.sctlr.ee = rng.randrange(2)
+    # bits without architectural effect on the modelled behaviour (cache / branch-prediction enables, RR, FI, WXN / UWXN:
+    # only instruction-fetch permissions) - they must not influence anything
+    for bit in (2, 11, 12, 14, 19, 20, 21):
+        if rng.random() < 0.3:
+            r.sctlr.value |= 1 << bit
     r.vbar.value = rng.choice([0, 0x20, 0x7000, 0xFFFFFFE0, 0x11000])
     if cfg['have_security_ext']:
         r.mvbar = rng.choice([0, 0x40, 0xFFFFFFE0, 0x6000])
